@@ -93,7 +93,7 @@ func Request() Profile {
 func Errors() Profile {
 	return Profile{Name: "errors", MaxServices: 2, MaxMethods: 3, MaxFields: 4, Runtime: true,
 		Validations: true, Defaults: true, UserTypes: true, Aliases: true, MultiRoute: true, BasePaths: true,
-		Maps: true, PrimPayloads: true, Errors: true, CustomErrors: true, ParamHeavy: true, DualTransport: true}
+		Maps: true, PrimPayloads: true, Errors: true, CustomErrors: true, ParamHeavy: true, DualTransport: true, Streaming: true, StreamPercent: 15}
 }
 
 // Routes is the C07/C14 document profile: routes, verbs, base paths, params in every location, file servers, security.
